@@ -5,12 +5,25 @@ open TbbVerif.Cint
 def etsHashBits : Nat := 64
 def etsInitLg : Nat := 2
 def etsKeyBytes : Nat := 8
+def maxHelpers : Nat := 127
 def maxRefs : Nat := 128
 def refMask : Nat := 127
 def runnerAlign : Nat := 128
 def stDone : Nat := 1
 def stUninit : Nat := 0
 def wordBits : Nat := 64
+def skDoneAfterCall : Bool := true
+def skDtorWaitsRefs : Bool := true
+def skResetByCas : Bool := true
+def skPinByCas : Bool := true
+def skIsolate : Bool := true
+def ordLateLoad : Nat := 2
+def ordSpinLoad : Nat := 2
+def ordDoneCas : Nat := 5
+def ordRefDec : Nat := 5
+def ordDtorLoad : Nat := 2
+def stCommitAfterConstruct : Bool := true
+def stClaimAfterCreate : Bool := true
 def lifeClearKey : List Nat := [4, 0, 1, 3]
 def lifeClearNo : List Nat := [4, 3]
 def lifeCtorKey : List Nat := [1]
